@@ -188,7 +188,10 @@ func (k *Kernel) Park(point string) {
 }
 
 // Wait lets everything run until every goroutine of the bubble is parked or durably blocked.
-func (k *Kernel) Wait() { synctest.Wait() }
+func (k *Kernel) Wait() {
+	synctest.Wait()
+	core.Beat() // the watchdog measures steps without progress, not the length of a run
+}
 
 // Parked returns the parked tasks in a deterministic order (by role, ordinal).
 func (k *Kernel) Parked() []*Task {
